@@ -1406,7 +1406,7 @@ _PY_TRIVIAL = {
 def rule_py_trivially_serializable_set(out):
     rid = "TS3"
     out.rule(rid, "_binary.py: the serializers whose arrays are copied to the wire as their memory image (is_trivially_serializable not False) are exactly the fixed-width "
-                  "one-byte / floating point / complex primitives, enums, fixed vectors and fixed arrays of such, and records of such — the set the C++ runtime uses (rule TS2); "
+                  "one-byte / floating point / complex primitives, enums, fixed vectors and fixed arrays of such, and records of such whose aligned dtype has no padding (item size == sum of the field sizes) — the set the C++ runtime uses (rule TS2, sizeof test); "
                   "optionals, unions, strings, varint integers, dates and dynamic containers are written element by element", 10)
     tree, rel = parse_py(out, "_binary.py")
     n = 0
@@ -1426,7 +1426,16 @@ def rule_py_trivially_serializable_set(out):
                 base = ast.unparse(v.func.value)
                 kind = "false" if base.startswith("super()") and cname != "TypeSerializer" else "delegate"
             elif isinstance(v, ast.Call) and isinstance(v.func, ast.Name) and v.func.id == "all":
-                kind = "all"
+                kind = "all-unpadded-missing"  # all fields trivial, but nothing about the layout
+            elif isinstance(v, ast.BoolOp) and isinstance(v.op, ast.And):
+                # `all(<fields trivially serializable>) and <item size == sum of field sizes>`: the record's aligned dtype has no padding
+                has_all = any(isinstance(t, ast.Call) and isinstance(t.func, ast.Name) and t.func.id == "all" for t in v.values)
+                has_layout = any(isinstance(t, ast.Compare) and len(t.ops) == 1 and isinstance(t.ops[0], ast.Eq) and any(isinstance(y, ast.Attribute) and y.attr == "itemsize" for y in ast.walk(t))
+                                 and any(isinstance(y, ast.Call) and isinstance(y.func, ast.Name) and y.func.id == "sum" for y in ast.walk(t)) for t in v.values)
+                if has_all and has_layout and len(v.values) == 2:
+                    kind = "all"
+                elif has_all:
+                    kind = "all-unpadded-missing"
         n += 1
         want = _PY_TRIVIAL.get(cname, "false")
         out.check(kind == want, rid, "%s/is_trivially_serializable" % cname, pos(rel, m), "%s, as the wire format requires" % kind,
@@ -1523,6 +1532,40 @@ def rule_py_fixed_containers_have_no_length(out):
     if n == 0:
         out.undecided(rid, "anchor/fixed containers", rel, "no write/read method found")
 
+
+
+def rule_py_dtype_constants_agree(out):
+    rid = "PD1"
+    out.rule(rid, "_binary.py: a serializer class that hands a module-level `*_DTYPE` constant to super().__init__ refers to no other `*_DTYPE` constant of a different numpy kind "
+                  "(datetime64 vs timedelta64) in its methods: a cast through the wrong kind keeps the raw count instead of converting the unit", 2)
+    tree, rel = parse_py(out, "_binary.py")
+    consts = {}
+    for st in tree.body:
+        if isinstance(st, ast.Assign) and len(st.targets) == 1 and isinstance(st.targets[0], ast.Name) and st.targets[0].id.endswith("_DTYPE"):
+            txt = ast.unparse(st.value)
+            kind = "timedelta" if "timedelta64" in txt else "datetime" if "datetime64" in txt else "other"
+            consts[st.targets[0].id] = kind
+    n = 0
+    for cname, cls in classes(tree).items():
+        init = methods(cls).get("__init__")
+        if init is None:
+            continue
+        own = None
+        for c in ast.walk(init):
+            if isinstance(c, ast.Call) and isinstance(c.func, ast.Attribute) and c.func.attr == "__init__" and c.args and isinstance(c.args[0], ast.Name) and c.args[0].id in consts:
+                own = c.args[0].id
+        if own is None or consts[own] == "other":
+            continue
+        n += 1
+        bad = None
+        for x in ast.walk(cls):
+            if isinstance(x, ast.Name) and x.id in consts and consts[x.id] not in ("other", consts[own]):
+                bad = x
+        out.check(bad is None, rid, "%s/dtype constants" % cname, pos(rel, bad if bad is not None else cls), "only %s-kind constants (own: %s)" % (consts[own], own),
+                  "%s is a %s serializer (super().__init__(%s)) but refers to %s, a %s dtype: casting a value through it reinterprets the count instead of converting it to "
+                  "nanoseconds/days — a value in another unit is written with the wrong magnitude" % (cname, consts[own], own, bad.id if bad is not None else "", consts.get(bad.id, "") if bad is not None else ""))
+    if n == 0:
+        out.undecided(rid, "anchor/serializers with a *_DTYPE constant", rel, "none found")
 
 def _outcomes(stmts):
     """how a statement list can end: subset of {'raise', 'return', 'fall', 'jump'}"""
@@ -2091,13 +2134,13 @@ RULES = {
     "C14": [rule_py_trivially_serializable_set, rule_py_fixed_containers_have_no_length],
     "C07": [rule_py_mixins_have_no_public_methods],
     "C02": [rule_json_kinds, rule_ndjson_sentinel, rule_union_dispatch, rule_py_optional_identity, rule_py_fraction_padded, rule_py_row_major, rule_py_flags_names_only_when_complete, rule_py_map_shape_by_schema],
-    "C03": [rule_link, rule_py_wire_table, rule_py_capacity, rule_py_no_alias, rule_py_stream_blocks, rule_py_optional_identity, rule_ndjson_sentinel, rule_py_fraction_padded, rule_py_varint_constants, rule_py_length_prefix_measures_payload, rule_py_row_major, rule_py_flags_names_only_when_complete, rule_py_trivially_serializable_set],
+    "C03": [rule_py_dtype_constants_agree, rule_link, rule_py_wire_table, rule_py_capacity, rule_py_no_alias, rule_py_stream_blocks, rule_py_optional_identity, rule_ndjson_sentinel, rule_py_fraction_padded, rule_py_varint_constants, rule_py_length_prefix_measures_payload, rule_py_row_major, rule_py_flags_names_only_when_complete, rule_py_trivially_serializable_set],
     "C08": [rule_link],
     "C15": [rule_py_headers, rule_ndjson_key_order],
     "C16": [rule_py_eof, rule_py_refill_scope, rule_py_no_swallowed_eof],
     "C17": [rule_py_stream_blocks, rule_py_no_alias, rule_py_capacity],
     "C04": [rule_py_headers, rule_py_write_order, rule_ndjson_key_order],
-    "C01": [rule_py_wire_table, rule_py_stream_blocks, rule_py_write_order, rule_py_no_alias, rule_py_varint_constants, rule_py_length_prefix_measures_payload, rule_py_trivially_serializable_set, rule_py_fixed_containers_have_no_length],
+    "C01": [rule_py_dtype_constants_agree, rule_py_wire_table, rule_py_stream_blocks, rule_py_write_order, rule_py_no_alias, rule_py_varint_constants, rule_py_length_prefix_measures_payload, rule_py_trivially_serializable_set, rule_py_fixed_containers_have_no_length],
 }
 
 
